@@ -14,15 +14,9 @@ schedule-independent".
   * TESTING (labelled so): -race build, GOMAXPROCS in {1,2,16}, results compared bit-for-bit with
     each other and with the plain build.  The race detector samples schedules, it does not
     enumerate them; the theorem does."""
-import sys, os, subprocess
+import sys, os, subprocess, time
 sys.path.insert(0, os.path.dirname(os.path.abspath(__file__)))
 from wraplib import *
-
-SHARED_OK = {'cellInputsShape', 'doneChan', 'inputLen', 'inputNewShape', 'inputs', 'inputsSizeSlice', 'm',
-             'numInputSequences', 'numStates', 'numCells', 'outputSizeSlice', 'outputStepSlice', 'outputs', 'states',
-             'statesSizeSlice', 'inputDims'}
-PER_GOROUTINE = {'outputPosSlice', 'statesPosSlice', 'inputsPosSlice', 'i'}
-
 
 def race_run(binary, lines, gmp):
     """Run the case stream under the race detector with GOMAXPROCS=gmp.
@@ -50,6 +44,83 @@ def race_run(binary, lines, gmp):
     return out, bad
 
 
+def structure_search(c, unrecognised, models, rng):
+    """The goroutine structure of some function was not recognised: look for a concrete failing
+    input on the real code.  Vectorised vs single-cell runs (plus descriptors, inputs / parameters
+    unchanged, repeated Run) at cell counts around the powers of two up to 2^13+1 with a tiny
+    series under GOMAXPROCS 1 and 16, recorded footprints up to 257 cells, and one -race sample.
+    Reports the concrete input, or `no-failing-input-found` naming the unrecognised structure."""
+    t0 = time.time()
+    fns = [u[0] for u in unrecognised]
+    affected = [m for m in fns if m in models]
+    cheap = [m for m in ('RunoffCoefficient', 'Sum', 'EmcDwc', 'Muskingum') if (m in affected or not affected) and m in models]
+    pick = (cheap or affected)[:2]
+    stats = {'run': True, 'models': pick, 'cases': 0, 'largest_cell_count': 0, 'gomaxprocs': [1, 16], 'race_sample': 0}
+    what = [{'function': u[0], 'file': u[1], 'problems': u[2]} for u in unrecognised[:8]]
+    if not pick:
+        # only functions the harness cannot drive (ow-sim's runGeneration): C07 runs ow-sim itself
+        c.violation('structure_unrecognised.json', {'kind': 'goroutine structure not recognised (correspondence obligation broken)', 'unrecognised': what,
+                                                    'note': 'no search possible here: this function is exercised by the C07 check (ow-sim runs, -race)'},
+                    no_input=True)
+        return stats
+    ns = sorted({n for k in range(1, 14) for n in (2 ** k - 1, 2 ** k, 2 ** k + 1) if n >= 1})
+    lines = []
+    for j, n in enumerate(ns):
+        m = pick[j % len(pick)]
+        nSets, nIn = [(1, 1), (n, n), (1, n), (n, 1)][j % 4]
+        lines.append(run_line(m, n, nSets, nIn, 2, PADS[j % len(PADS)], 0, rng.randrange(1 << 30), 'go', 0, 1 if n <= 257 else 0))
+    found = False
+    for gmp in (1, 16):
+        res = run_cases(lines, env=dict(GOENV, GOMAXPROCS=str(gmp)), timeout=1800)
+        fpl = [footprint_line(r) for (_, r, _) in res if r is not None and r.get('cells') is not None]
+        fpo = iter(run_model(fpl)) if fpl else iter([])
+        for (l, r, raw) in res:
+            stats['cases'] += 1
+            bad = None
+            if r is None:
+                bad = {'crash': raw}
+            else:
+                stats['largest_cell_count'] = max(stats['largest_cell_count'], r['layout']['N'])
+                if not r['ok']:
+                    bad = {'fails': r['fails']}
+                if r.get('cells') is not None:
+                    fd, cells = parse_footprint(next(fpo))
+                    if cells is not None and len(cells) == r['layout']['N'] and bad is None:
+                        pb = [p for p in compare_footprints(r, cells, 'fixed') if 'not the modelled' not in p]
+                        if pb:
+                            bad = {'footprint_problems': pb[:8]}
+            if bad and not found:
+                found = True
+                c.violation('structure_search_%d.json' % gmp, dict(bad, kind='failing input found by the search triggered by an unrecognised goroutine structure',
+                                                                  GOMAXPROCS=gmp, case_line=l, unrecognised=what,
+                                                                  replay='echo "%s" | GOMAXPROCS=%d harness/bin/cellrun' % (l, gmp)))
+        if found:
+            break
+    if not found:
+        try:
+            sample = [run_line(pick[0], n, 1, 1, 2, PADS[0], 0, rng.randrange(1 << 30), 'go', 0, 0) for n in (3, 65, 4097)]
+            out, bad = race_run(CELLRUN_RACE, sample, 16)
+            stats['race_sample'] = len(sample)
+            for (line, kind, err) in bad:
+                found = True
+                c.violation('structure_search_race.json', {'kind': 'race-detector: %s (search triggered by an unrecognised goroutine structure)' % kind,
+                                                           'case_line': line, 'stderr': err, 'unrecognised': what,
+                                                           'replay': 'echo "%s" | GOMAXPROCS=16 harness/bin/cellrun-race' % line})
+                break
+            for l, r in zip(sample, out):
+                if r is not None and not r['ok'] and not found:
+                    found = True
+                    c.violation('structure_search_race.json', {'kind': 'failing input under -race', 'case_line': l, 'fails': r['fails'], 'unrecognised': what})
+        except BuildError:
+            pass
+    if not found:
+        c.violation('structure_unrecognised.json', {'kind': 'goroutine structure not recognised (correspondence obligation broken); the search found no failing input',
+                                                    'unrecognised': what, 'searched': stats}, no_input=True)
+    stats['found_failing_input'] = found
+    stats['wall_s'] = round(time.time() - t0, 1)
+    return stats
+
+
 def main():
     c = Check('C05')
     quick = c.tier == 'quick'
@@ -71,30 +142,29 @@ def main():
     models = sorted(cat)
     flav = {m: ('fixed' if specs.get(m, {}).get('InitZero') else 'custom') for m in models}
 
-    # ---------------- (i) closure capture analysis of the generated sources
+    # ---------------- (i) semantic analysis of the goroutine structure of the generated sources
+    # (harness/cmd/cellrun/gostruct.go: no dependence on identifier names; launches == receives ==
+    # number of cells by symbolic trip counts; completion channel and captured variables by use).
+    # A structure that is NOT recognised is a broken correspondence obligation, not a violation by
+    # itself: it triggers a failing-input search on the real code (below, after the regular streams).
     reps = json.loads(sh([CELLRUN, '-capture', os.path.join(REPO_DIR, 'models')], env=GOENV))
     n_closures = 0
+    unrecognised = []          # (model, file, problems)
+    gstats = {'functions_analysed': len(reps), 'recognised': 0, 'launch_forms': {}, 'callee_kinds': {},
+              'completion_channels': set(), 'shared_read_only_captured': set(), 'written_captured': set()}
     for r in reps:
-        name = r['model']
-        c.count('capture:' + r['file'], nontrivial=True)
-        n_closures += r['go_funcs']
-        probs = []
-        if r['go_funcs'] != 1:
-            probs.append('%d goroutine literals (expected 1)' % r['go_funcs'])
-        if r.get('structure'):
-            probs.append('Run does not start exactly one goroutine per cell index: %s' % r['structure'])
-        if r.get('written_captured'):
-            probs.append('variables shared between the goroutines are WRITTEN inside the goroutine: %s' % r['written_captured'])
-        if name != 'runGeneration':
-            extra = set(r.get('read_captured') or []) - SHARED_OK
-            if extra:
-                probs.append('captured variables the model does not know as shared read-only vectors: %s' % sorted(extra))
-            missing = PER_GOROUTINE - set(r.get('declared_inside') or [])
-            if missing:
-                probs.append('position vectors not declared inside the goroutine: %s' % sorted(missing))
-        if probs:
-            c.violation('capture_%s.json' % name, {'kind': 'goroutine-structure-or-shared-state (not one goroutine per cell, or captured state written)', 'file': r['file'], 'problems': probs,
-                                                   'replay': 'harness/bin/cellrun -capture /repo/models   (entry for %s)' % r['file']})
+        c.count('structure:' + r['file'], nontrivial=True)
+        n_closures += r['go_stmts']
+        gstats['recognised'] += bool(r['recognised'])
+        for k, f in (('launch_forms', 'launch_form'), ('callee_kinds', 'callee')):
+            gstats[k][r.get(f) or '?'] = gstats[k].get(r.get(f) or '?', 0) + 1
+        gstats['completion_channels'].add(r.get('channel') or '?')
+        gstats['shared_read_only_captured'].update(r.get('read_captured') or [])
+        gstats['written_captured'].update(r.get('written_captured') or [])
+        if not r['recognised']:
+            unrecognised.append((r['model'], r['file'], r.get('problems') or ['?']))
+    for k in ('completion_channels', 'shared_read_only_captured', 'written_captured'):
+        gstats[k] = sorted(gstats[k])
     gen_files = [r for r in reps if r['model'] != 'runGeneration']
     if len(gen_files) != len(models):
         c.corr_broken.append({'kind': 'generated wrappers != catalogue', 'files': len(gen_files), 'catalogue': len(models)})
@@ -139,10 +209,9 @@ def main():
             continue
         n_acc += r.get('n_accesses', 0)
         max_cpg = max(max_cpg, r.get('max_cells_per_goroutine', 0))
-        if r.get('max_cells_per_goroutine', 0) > 1 and not any(v[0] and 'structure_' in v[0] for v in c.violations):
-            c.violation('structure_%d.json' % i, {'kind': 'one goroutine handles several cells: not the goroutine-per-cell structure the footprint theorems model',
-                                                 'case_line': l, 'cells_per_goroutine': [len(g['cells']) for g in r.get('groups') or []][:20]},
-                        no_input=True)
+        if r.get('max_cells_per_goroutine', 0) > 1 and not any(u[0] == '(observed)' for u in unrecognised):
+            unrecognised.append(('(observed)', l, ['one goroutine handled %d cells: not the goroutine-per-cell structure the footprint theorems model'
+                                                  % r['max_cells_per_goroutine']]))
         fd, cells = parse_footprint(next(fp_out))
         if cells is None or len(cells) != L['N']:
             c.corr_broken.append({'kind': 'model-footprint-unavailable', 'case_line': l})
@@ -154,6 +223,16 @@ def main():
         if i % 97 == 0:
             c.sample({'case': l, 'recorded_accesses': r.get('n_accesses'),
                       'cell0': {k: len(v) for k, v in (r['cells'][0] or {}).items()} if r['cells'] else None})
+
+    # ---------------- output arrays of successive generations are distinct objects (ow-sim keeps generation
+    # g's outputs for the asynchronous writer while generation g+1 runs)
+    oa_lines = ['OUTALLOC %s %d %d' % (m, nT, nC) for m in models[::max(1, len(models) // (4 if quick else 41))]
+                for (nT, nC) in ((2048, 40), (7, 3), (512, 300))]
+    for (l, r, raw) in run_cases(oa_lines):
+        c.count(l, nontrivial=True)
+        if r is None or not r['ok']:
+            c.violation('outalloc.json', {'kind': 'output arrays of different generations share storage', 'case_line': l,
+                                         'fails': r['fails'] if r else raw, 'replay': 'echo "%s" | harness/bin/cellrun' % l})
 
     # ---------------- (iii) TESTING: race detector, GOMAXPROCS 1 / 2 / 16, bit-for-bit
     race_stats = {'cases': 0, 'gomaxprocs': [], 'data_races': 0}
@@ -204,11 +283,20 @@ def main():
     except BuildError as e:
         c.assumptions.append('race-detector build unavailable: ' + e.what)
 
-    c.cov['rule'] = ('(i) go/ast closure-capture analysis of the %d generated Run methods and of ow-sim runGeneration; (ii) every model of '
+    # ---------------- (iv) unrecognised goroutine structure: failing-input search on the real code
+    search_stats = {'run': False}
+    if unrecognised and not any(v[0] for v in c.violations):
+        search_stats = structure_search(c, unrecognised, models, rng)
+    elif unrecognised:
+        search_stats = {'run': False, 'reason': 'a concrete failing input was already found by the regular streams'}
+    gstats['unrecognised'] = [{'function': u[0], 'file': u[1], 'problems': u[2][:4]} for u in unrecognised[:6]]
+    gstats['search'] = search_stats
+
+    c.cov['rule'] = ('(i) semantic go/ast analysis of the goroutine structure of the %d generated Run methods and of ow-sim runGeneration (launches == receives == cells by symbolic trip counts, completion channel / captured variables by use; an unrecognised structure triggers a failing-input search); (ii) every model of '
                      'sim.Catalog run on recording arrays (per-goroutine read/write sets, measured element addresses) compared with the '
                      'extracted Coq footprint and checked for pairwise disjointness; non-trivial = more than one cell; (iii) TESTING: the same '
                      'case stream under -race with GOMAXPROCS 1/2/16, results bit-identical to the plain build' % len(gen_files))
-    c.finish(extra_cov={'models': len(models), 'closures_analysed': n_closures, 'recorded_accesses': n_acc, 'max_cells_handled_by_one_goroutine': max_cpg, 'race_testing': race_stats,
+    c.finish(extra_cov={'models': len(models), 'closures_analysed': n_closures, 'goroutine_structure': gstats, 'recorded_accesses': n_acc, 'max_cells_handled_by_one_goroutine': max_cpg, 'race_testing': race_stats,
                         'exhaustive': False, 'coqchk': chk},
              assumptions=['PARTIAL w.r.t. the Go memory model: the doneChan / simulationDone joins (channel happens-before) are assumed, not modelled',
                           'the race detector samples schedules (testing); all schedules are covered only by the theorem on the footprint model',
